@@ -26,6 +26,7 @@ pub enum Mode {
 	C03,
 	C12,
 	C13,
+	C14,
 	C16,
 }
 
@@ -35,6 +36,7 @@ fn mode_of(p: &str) -> Option<Mode> {
 		"C03" => Mode::C03,
 		"C12" => Mode::C12,
 		"C13" => Mode::C13,
+		"C14" => Mode::C14,
 		"C16" => Mode::C16,
 		_ => return None,
 	})
@@ -65,6 +67,10 @@ fn spec_for(prop: &str, _tier: Tier) -> Option<Spec> {
 			.require("images_with_synced_lower_bound", 30)
 			.budget(35, 600)
 			.assume("crash part of C03 (the clean-shutdown part is decided by the stepping engine in the same check)"),
+		Mode::C14 => Spec::new("C14", "exploration", &format!("{}Crash images as in C02; after recovery, a continuation workload, a clean restart and a drain, the independent structural checker (pvfsck) validates the files against the recovered prefix state plus the continuation (free lists, slot classification, index<->value bijection, btree order/depth, tree reference counts).", common))
+			.require("images", 100)
+			.require("fsck_after_recovery", 50)
+			.budget(35, 600),
 		Mode::C12 => Spec::new("C12", "fault_enumeration", &format!("{}The harness binary interposes fsync/fdatasync/msync/ftruncate/unlink/read/write, keeps a durable shadow of every file (content at its last sync) and builds power-loss images: durable content + a subset of the differing 4 KiB pages (none, all, each page alone, all but one, random subsets) + a prefix of the unsynced log tail (record boundaries +-1, random). Recovery must give S_m with synced <= m <= issued. In addition two ordering rules are evaluated on the real syscalls of every un-faulted run: R1 a log is not read for enactment while bytes appended to it were never synced; R2 when a log is truncated or unlinked no table/index/ref-count byte differs from its last synced content.", common))
 			.require("power_images", 200)
 			.require("images_with_dirty_pages", 30)
@@ -97,6 +103,9 @@ fn spec_for(prop: &str, _tier: Tier) -> Option<Spec> {
 
 fn shard(ctx: &Ctx, rep: &mut Report) {
 	let mode = mode_of(&ctx.prop).expect("mode");
+	if mode == Mode::C14 {
+		oracle::FSCK_AFTER_RECOVERY.store(true, std::sync::atomic::Ordering::SeqCst);
+	}
 	if let Some(j) = &ctx.replay {
 		let case_seed = j.get("case_seed").and_then(|x| x.as_u64()).expect("case_seed");
 		let variant = j.get("variant").and_then(|x| x.as_u64()).unwrap_or(0);
@@ -397,7 +406,7 @@ fn crash_child(mode: Mode, rec: &Recorded, dir: &Path, act: usize, phase: &'stat
 	let events_before = interpose::tracker().map(|t| t.counts.clone()).unwrap_or_default();
 	let files_before: Vec<String> = dbutil::list_files(dir).into_iter().map(|f| f.0).collect();
 	let lo = match mode {
-		Mode::C02 => 0,
+		Mode::C02 | Mode::C14 => 0,
 		_ => rec.synced_before[act],
 	};
 	let hi = rec.commits_before[act] + if matches!(rec.acts[act], Act::Commit(_)) && phase == "boundary" { 1 } else { 0 };
@@ -556,6 +565,9 @@ fn crash_child(mode: Mode, rec: &Recorded, dir: &Path, act: usize, phase: &'stat
 		let v = oracle::eval_image(&img, rec, lo, hi, &mut rng, true);
 		evals += v.evals;
 		bump(&mut counts, "images", 1);
+		if mode == Mode::C14 && v.fail.is_none() {
+			bump(&mut counts, "fsck_after_recovery", 1);
+		}
 		if inside {
 			bump(&mut counts, "images_inside_step", 1);
 		}
